@@ -30,7 +30,7 @@ From Coq Require Import Lia.
 From Soy Require Import Model.Bytes Model.Num Model.Values Model.Outcome Model.Ast
   Model.Escape Model.Directives Model.Print Generated.Tables Model.Interp Model.InterpSafety Model.Globals
   Model.Compile Spec.Safety
-  Proofs.SafetyPure Proofs.SafetyProofs Proofs.SafetyEntry Proofs.SafetyFuel Proofs.SafetyCompile.
+  Proofs.SafetyPure Proofs.SafetyProofs Proofs.SafetyEntry Proofs.SafetyFuel Proofs.SafetyCompile Proofs.SafetyMono.
 Open Scope N_scope.
 
 (* ================================================================== *)
@@ -82,6 +82,27 @@ Theorem C06_walk_fuel_callfree :
 Proof. intros cf fuel n st Hc Hf. apply fuel_ok_nf. apply walk_fuel_callfree; assumption. Qed.
 Print Assumptions C06_walk_fuel_callfree.
 
+(* the budget is only an approximation index: an outcome other than OutOfFuel obtained with some fuel is
+   the outcome -- with the same accepted writes and the same reported file and line -- for every larger
+   fuel.  So on a recursive bundle OutOfFuel can only mean "the calls nest deeper than the budget", never
+   a hidden crash or a hidden endless loop: with C06_render_no_escape, either every budget is too small
+   (unbounded recursion, outside the statement) or from some budget on the render gives one fixed
+   result-or-error. *)
+Theorem C06_render_fuel_monotone :
+  forall cf f f' name data_id data calls_left bytes_left first_id,
+    (f <= f')%nat ->
+    rr_outcome (render cf f name data_id data calls_left bytes_left first_id) <> OutOfFuel ->
+    render cf f' name data_id data calls_left bytes_left first_id
+    = render cf f name data_id data calls_left bytes_left first_id.
+Proof. exact render_fuel_monotone. Qed.
+Print Assumptions C06_render_fuel_monotone.
+
+Theorem C06_walk_fuel_monotone :
+  forall cf f f' n st r st',
+    (f <= f')%nat -> walk cf f n st = (r, st') -> r <> OutOfFuel -> walk cf f' n st = (r, st').
+Proof. exact walk_fuel_monotone. Qed.
+Print Assumptions C06_walk_fuel_monotone.
+
 (* FULL STATEMENT for recursive bundles (not proved): for every run there is a number d -- the call depth
    the run reaches, a function of the data -- such that fuel >= reg_height * (d + 1) excludes OutOfFuel.
    Proved instead: the acyclic case above, where d is bounded by the rank; recursion on data stays
@@ -105,6 +126,20 @@ Theorem C06_err_recover_safe :
     exists file line, err_recover true v = Ok (file, line).
 Proof. exact err_recover_safe_lemma. Qed.
 Print Assumptions C06_err_recover_safe.
+
+(* Interp.render inlines exactly that handler: same outcome (up to the text of a crash), file and line *)
+Theorem C06_render_uses_err_recover :
+  forall cf fuel name data_id data calls_left bytes_left first_id t,
+    find_template (r_templates (c_reg cf)) name = Some t ->
+    (assoc_s name (r_sources (c_reg cf)) = None <-> assoc_s name (r_files (c_reg cf)) = None) ->
+    let st0 := init_state (sc_enter (new_scope data_id data)) (entry_mode (t_ns_autoescape t)) name calls_left bytes_left first_id in
+    let run := walk cf fuel (t_node t) st0 in
+    let rr := render cf fuel name data_id data calls_left bytes_left first_id in
+    (crash_class (rr_outcome rr), rr_file rr, rr_line rr) =
+    (let '(o, f, l) := finish_render true {| rv_reg := c_reg cf; rv_tmpl := Some name; rv_pos := cur (snd run) |} (fst run) in
+     (crash_class o, f, l)).
+Proof. exact render_uses_err_recover. Qed.
+Print Assumptions C06_render_uses_err_recover.
 
 (* ================================================================== *)
 (* range                                                               *)
